@@ -309,7 +309,10 @@ Definition conn_version (neg : list (Z * Z)) (k : Z) : Z :=
 (* ------------------------------------------------------------------ *)
 (* metadata responses (protocol/metadata), projected *)
 Record md_broker := { mb_id : Z; mb_addr : N }.
-Record md_part := { mp_idx : Z; mp_err : Z; mp_leader : Z }.
+(* ReplicaNodes / IsrNodes / OfflineReplicas ride along: routing does not look at them, the cache
+   must hand them back unchanged *)
+Record md_part := { mp_idx : Z; mp_err : Z; mp_leader : Z;
+                    mp_replicas : list Z; mp_isr : list Z; mp_offline : list Z }.
 Record md_topic := { mt_name : name; mt_err : Z; mt_internal : bool; mt_parts : list md_part }.
 Record metadata := { md_controller : Z; md_brokers : list md_broker; md_topics : list md_topic }.
 
@@ -662,3 +665,47 @@ Fixpoint rp_run (s : rpool) (ls : list rlabel) {struct ls} : option rpool :=
   | [] => Some s
   | l :: ls' => match rp_step s l with Some s' => rp_run s' ls' | None => None end
   end.
+
+(* ------------------------------------------------------------------ *)
+(* metadata.go Client.Metadata: the cached (filtered) response turned into the public view.
+   brokers[id] is a Go map filled in list order (last entry of an id wins); a missing id gives
+   the zero Broker. *)
+Definition zero_md_broker : md_broker := {| mb_id := 0; mb_addr := 0 |}.
+Definition cm_lookup (bs : list md_broker) (id : Z) : md_broker :=
+  fold_left (fun acc b => if mb_id b =? id then b else acc) bs zero_md_broker.
+Record cm_partition := {
+  cp_id : Z; cp_err : Z; cp_leader : md_broker; cp_replicas : list md_broker; cp_isr : list md_broker }.
+Record cm_topic := { ct_name : name; ct_internal : bool; ct_err : Z; ct_parts : list cm_partition }.
+Record cm_response := { cm_controller : md_broker; cm_brokers : list md_broker; cm_topics : list cm_topic }.
+
+Definition client_partition (bs : list md_broker) (p : md_part) : cm_partition :=
+  {| cp_id := mp_idx p; cp_err := mp_err p; cp_leader := cm_lookup bs (mp_leader p);
+     cp_replicas := map (cm_lookup bs) (mp_replicas p); cp_isr := map (cm_lookup bs) (mp_isr p) |}.
+Definition client_topic (bs : list md_broker) (t : md_topic) : cm_topic :=
+  {| ct_name := mt_name t; ct_internal := mt_internal t; ct_err := mt_err t;
+     ct_parts := map (client_partition bs) (mt_parts t) |}.
+(* ret.Controller is assigned inside the broker loop: the last broker whose id is the controller's *)
+Definition client_metadata (m : metadata) : cm_response :=
+  {| cm_controller := fold_left (fun acc b => if mb_id b =? md_controller m then b else acc) (md_brokers m) zero_md_broker;
+     cm_brokers := md_brokers m;
+     cm_topics := map (client_topic (md_brokers m)) (md_topics m) |}.
+
+(* ------------------------------------------------------------------ *)
+(* transport.go connGroup.connect: the requests that set a connection up.  ApiVersions goes first
+   (version 0: nothing is negotiated yet), SetVersions installs the negotiated table, and only then
+   the SASL exchange runs through pc.RoundTrip: SaslHandshake at the negotiated version of key 17;
+   saslauthenticate.Request.Required selects the legacy raw token exchange (no request header)
+   exactly when that version is 0, else SaslAuthenticate requests at the negotiated version of 36. *)
+Definition K_ApiVersions : Z := 18.
+Definition K_SaslHandshake : Z := 17.
+Definition K_SaslAuthenticate : Z := 36.
+Inductive setup_msg :=
+| SReq (api ver : Z)     (* a framed request of that API key at that version *)
+| SRawToken.             (* the bare length-prefixed SASL token of the v0 handshake *)
+Definition connection_setup (sasl : bool) (neg : list (Z * Z)) : list setup_msg :=
+  SReq K_ApiVersions 0 ::
+  (if sasl
+   then [SReq K_SaslHandshake (conn_version neg K_SaslHandshake);
+         if conn_version neg K_SaslHandshake =? 0 then SRawToken
+         else SReq K_SaslAuthenticate (conn_version neg K_SaslAuthenticate)]
+   else []).
